@@ -738,15 +738,17 @@ seed("c20-caps-shared-array", "C20", "R-no-shared-mutable-globals", "conn.go",
 	}""", """	caps := baseCaps""", "capability list built on a package-level slice with spare capacity",
 more=[("func (c *Conn) Server() *Server {", "var baseCaps = append(make([]string, 0, 16), \"PIPELINING\", \"8BITMIME\", \"ENHANCEDSTATUSCODES\", \"CHUNKING\")\n\nfunc (c *Conn) Server() *Server {")])
 
-seed("c19-partial-long-line", "C19", "R-toolong-no-partial", "conn.go",
-"""	line, err := c.text.ReadLine()
-	if err == nil && c.lineLimitReader.exceeded() {
-		// The buffered reader hands out what it already held of a line and
-		// drops the error when the rest of the line turns out to be too
-		// long: the beginning of such a line must not be taken for a command.
-		return "", ErrTooLongLine
+seed("c19-partial-long-line", "C19", "R-line-terminated", "conn.go",
+"""	line, err := c.text.R.ReadString('\\n')
+	if err != nil {
+		if c.lineLimitReader.exceeded() {
+			return "", ErrTooLongLine
+		}
+		return "", err
 	}
-	return line, err""", """	return c.text.ReadLine()""", "beginning of an over-long line dispatched")
+	line = strings.TrimSuffix(line, "\\n")
+	line = strings.TrimSuffix(line, "\\r")
+	return line, nil""", """	return c.text.ReadLine()""", "the received part of an unterminated or over-long line is dispatched")
 seed("c13-panic-under-lock", "C13", "R-no-panic-under-lock", "conn.go",
 """func (c *Conn) Session() Session {
 	c.locker.Lock()
@@ -1058,10 +1060,10 @@ seed("c14-ehlo-keys-lower-cased", "C14", "R-ehlo-keys", "client.go",
 			}""", "no upper-case lookup finds an advertised extension: every option is silently dropped")
 
 seed("c19-counter-reset-per-command", "C19", "R-linelimit-threshold", "conn.go",
-"""	line, err := c.text.ReadLine()
-	if err == nil && c.lineLimitReader.exceeded() {""", """	c.lineLimitReader.curLineLength = 0
-	line, err := c.text.ReadLine()
-	if err == nil && c.lineLimitReader.exceeded() {""", "readLine zeroes the limiter's count: read-ahead octets of a pipelined long line are forgotten")
+"""	line, err := c.text.R.ReadString('\\n')
+	if err != nil {""", """	c.lineLimitReader.curLineLength = 0
+	line, err := c.text.R.ReadString('\\n')
+	if err != nil {""", "readLine zeroes the limiter's count: read-ahead octets of a pipelined long line are forgotten")
 
 seed("c17-reply-lines-trimmed-in-place", "C17", "R-reply-format", "conn.go",
 """	lastLineIndex := len(text) - 1
@@ -1362,18 +1364,11 @@ seed("c20-registered-after-handshake", "C20", "R-close-effects", "server.go",
 		s.locker.Unlock()
 	}()
 """, "Server.Close cannot end a connection that is still in its TLS handshake")
-seed("c04-limiter-asked-before-read", "C04", "R-toolong-no-partial", "conn.go",
-"""	line, err := c.text.ReadLine()
-	if err == nil && c.lineLimitReader.exceeded() {
-		// The buffered reader hands out what it already held of a line and
-		// drops the error when the rest of the line turns out to be too
-		// long: the beginning of such a line must not be taken for a command.
-		return "", ErrTooLongLine
-	}
-	return line, err""", """	if c.lineLimitReader.exceeded() {
-		return "", ErrTooLongLine
-	}
-	return c.text.ReadLine()""", "the limiter is consulted before the read instead of after it")
+for pid in ("C04", "C09", "C11"):
+    seed(pid.lower()+"-line-error-ignored-when-data", pid, "R-line-terminated", "conn.go",
+"""	line, err := c.text.R.ReadString('\\n')
+	if err != nil {""", """	line, err := c.text.R.ReadString('\\n')
+	if err != nil && line == \"\" {""", "a fragment cut off by a timeout or the end of the stream is dispatched as a command")
 
 seed("c07-bdat-reader-wrapped", "C07", "R-bdat-reader-is-the-pipe", "conn.go",
 """				err = session.Data(r)
